@@ -315,13 +315,14 @@ namespace Pistache
 
     bool match_double(double* val, StreamCursor& cursor)
     {
-        // @Todo: strtod does not support a length argument
+        // strtod does not support a length argument: convert a bounded copy
+        const std::string text(cursor.offset(), cursor.remaining());
         char* end;
-        *val = strtod(cursor.offset(), &end);
-        if (end == cursor.offset())
+        *val = strtod(text.c_str(), &end);
+        if (end == text.c_str())
             return false;
 
-        cursor.advance(static_cast<ptrdiff_t>(end - cursor.offset()));
+        cursor.advance(static_cast<size_t>(end - text.c_str()));
         return true;
     }
 
